@@ -1961,3 +1961,21 @@ def mentions_call(e, names):
 def is_neg_of_local(c, lid):
     c = peel(c)
     return c.get("k") == "Unary" and c["op"] == "!" and peel(c["e"]).get("lid") == lid
+
+
+def ty_is(F, n, full):
+    """type of node equals `full` modulo leading references"""
+    if n is None:
+        return False
+    for t in (F.ty(n, True), F.ty(n)):
+        if t is None:
+            continue
+        t = t.lstrip("&")
+        if t.startswith("mut "):
+            t = t[4:]
+        t = t.lstrip("&")
+        if t.startswith("mut "):
+            t = t[4:]
+        if t == full:
+            return True
+    return False
